@@ -68,8 +68,8 @@ def real_partitions(loop, names, cap=6):
                 if len(out) >= cap:
                     return out
                 try:
-                    ws = [minif.export_expr(w.component_indices[i], names) for i in w.component_indices.iterate()]
-                    os_ = [minif.export_expr(o.component_indices[i], names) for i in o.component_indices.iterate()]
+                    ws = [c08_gen.export_expr(w.component_indices[i], names) for i in w.component_indices.iterate()]
+                    os_ = [c08_gen.export_expr(o.component_indices[i], names) for i in o.component_indices.iterate()]
                 except minif.Unsupported:
                     continue
                 parts = DependencyTools._partition(w.component_indices, o.component_indices, loop_vars)
@@ -109,14 +109,17 @@ def model_and_traces(exports):
     for ex in exports:
         lines.append(sx(["par", ex["loop"], ex["dnames"], ex["order"]]))
         lines.append(sx(["trace", ex["prefix"], ex["loop"], CAP]))
+        lines.append(sx(["sigok", ex["sigtab"], ex["loop"]]))
     out = common.driver("C08", lines)
     res = []
     for k in range(len(exports)):
-        p, t = out[2 * k], out[2 * k + 1]
-        if not p.startswith("(") or not t.startswith("("):
-            raise common.Infra(f"C08 driver: {p[:80]} / {t[:80]}")
+        p, t, so = out[3 * k], out[3 * k + 1], out[3 * k + 2]
+        if not p.startswith("(") or not t.startswith("(") or so not in ("0", "1"):
+            raise common.Infra(f"C08 driver: {p[:80]} / {t[:80]} / {so[:80]}")
         par = parse_sx(p)
-        res.append({"par": bool(par[0]), "frag": bool(par[1]), "msgs": sorted((m[0], m[1]) for m in par[2]),
+        # outside the calibrated fragment also when the signatures are not a bijection / overlap (C08.sigTabOk)
+        res.append({"par": bool(par[0]), "frag": bool(par[1]) and so == "1", "sigok": so == "1",
+                    "msgs": sorted((m[0], m[1]) for m in par[2]),
                     "priv": list(par[3]), "first": [(m[0], m[1]) for m in par[4]], "traces": parse_sx(t)})
     return res
 
@@ -148,7 +151,7 @@ def judge(src, ex, real, mod):
     out["model"]["first"] = [list(x) for x in m1]
     out["agree"] = ((real[1] == mod["par"]) and (list(real[2]) == mm)
                     and (real[3] == mod["par"]) and ([tuple(x) for x in real[4]] == m1))
-    if real[1]:
+    if real[1] and mod.get("sigok", True):
         cf = conflicts(mod["traces"], set(mod["priv"]), set(c08_gen.BodyInfo(ex["loop"]).subs))
         if cf:
             a, b, loc, kind = cf
@@ -180,7 +183,8 @@ def wrap(body_lines):
 
 def run(chk):
     chk.cov["rule"] = ("programs = init block + one analysed loop `do i` (flavours: affine / integer division / MOD / index "
-                       "arrays / d_<var> names / loop nests / scalar patterns / stale subscripts / mixed; bodies of 1-3 "
+                       "arrays / d_<var> names / loop nests / scalar patterns / stale subscripts / structure members (`cfg%off`, "
+                       "`pp(i)%x`, `g%a(i)` as scalars, array signatures and in subscripts) / mixed; bodies of 1-3 "
                        "statements, optional IF and inner `do j`); every generated loop writes an array element or a scalar, "
                        "so the real analysis runs at least one pairwise array test or one scalar test: all judged cases "
                        "are non-trivial except loops the real analysis refuses with an exception; distinct by source text")
@@ -207,6 +211,10 @@ def run(chk):
     if chk.tier != "thorough":
         fam = [f for q, f in enumerate(fam) if "-read" in f[0] or "-r1-" in f[0] or (q // 4) % 2 == chk.seed % 2]
     sources += [(name, c08_gen.wrap_loop(chk.rng, lines), "free2-family") for name, lines in fam]
+    fam = c08_gen.member_family()
+    if chk.tier != "thorough":       # quick: every member whose loop modifies the signature it uses + a third of the rest
+        fam = [f for q, f in enumerate(fam) if "-same-" in f[0] or q % 3 == chk.seed % 3]
+    sources += [(name, c08_gen.wrap_loop(chk.rng, lines, structs=True), "member-family") for name, lines in fam]
     for q in range(n):
         s, fl = c08_gen.gen_source(chk.rng)
         sources.append((f"gen{q}", s, fl))
